@@ -1,9 +1,26 @@
-import RbdlProofs.Lemmas.Rot
+import RbdlProofs.Lemmas.L01
+import RbdlProofs.Lemmas.L01Ex
 /-
-  C01 — property theorems (placeholder while the layers are being proved).
+  C01 — the force side of inverse dynamics (`InverseDynamics`, `NonlinearEffects`):
+
+  * `single_body_newton_euler`  the body force `I a + v ×* I v` is Newton's and Euler's equation
+  * `rnea_forward_closed`, `rnea_forward_indep`, `rnea_forward_fixed_axis`
+                                 what the forward pass leaves in the workspace
+  * `rnea_backward_closed`, `rnea_tau_one`, `rnea_tau_three`, `tau_write_local`,
+    `tau_written_once`, `rnea_tau0_indep`
+                                 subtree sums and the `tau` writes of the backward pass
+  * `rnea_dalembert`, `inverse_dynamics_dalembert`, `rnea_dalembert_subtree`, `partial_velocity_eq`
+                                 `tau` = Σ_bodies (partial velocity) · (net body force)
+  * `nonlinear_effects_eq_rnea0` `NonlinearEffects` = `InverseDynamics` with `q̈ = 0`
+
+  Helper definitions (`idForward`, `FwdClosed`, `ForceClosed`, `rneaFtot`, `owns`, `downTo`, `WSJ`,
+  `CustomInj`, …) and lemmas: RbdlProofs/Lemmas/L01.lean; concrete instances: L01Ex.lean.
+  Every theorem with hypotheses is followed by an `example` instantiating it over `Rat`.
 -/
 namespace Rbdl.C01
-open Lean.Grind Rbdl
+open Lean.Grind Rbdl Rbdl.Loops Rbdl.L01
+
+section Algebra
 variable {α : Type} [CommRing α]
 
 /-- power is invariant under a common change of frame (layer (e) of the C01 proof) -/
@@ -13,5 +30,385 @@ theorem power_invariant (X : XT α) (h : X.E.IsRot) (v f : SV α) :
   simp only [M3.transpose] at *
   simp only [alg]
   grind
+example (v f : SV Rat) : (C16.Ex.X.apply v).dot (C16.Ex.X.applyAdjoint f) = v.dot f :=
+  power_invariant _ C16.Ex.X_isRot v f
 
+/-- 4. The body force of the recursive Newton–Euler algorithm is Newton's and Euler's equation
+    about the body origin: for `I = createFromMassComInertiaC(m, c, Ic)` (`Ic` symmetric), spatial
+    velocity `v = (ω, vO)` and spatial acceleration `a = (ω̇, aO)` in body coordinates,
+      `I a + v ×* (I v) = ⟨ Ic ω̇ + ω × Ic ω + c × (m a_c),  m a_c ⟩`,
+      `a_c = aO + ω̇ × c + ω × (vO + ω × c)`
+    (`a_c` = the classical acceleration of the centre of mass in body coordinates, given the
+    spatial-acceleration convention `a_lin = Rᵀ p̈ − ω × vO`).  All signs as in the task. -/
+theorem single_body_newton_euler (mass : α) (c : V3 α) (Ic : M3 α) (hs : Ic.transpose = Ic)
+    (v a : SV α) :
+    RBI.ofMassComInertiaC mass c Ic * a + crossf v (RBI.ofMassComInertiaC mass c Ic * v)
+      = ⟨Ic * a.w + v.w.cross (Ic * v.w) + c.cross (mass * comAccel c v a),
+         mass * comAccel c v a⟩ := by
+  simp only [M3.transpose, M3.ext_iff] at hs
+  alg_ext
+example (mass : Rat) (c : V3 Rat) (v a : SV Rat) :
+    RBI.ofMassComInertiaC mass c C16.Ex.Ic * a
+        + crossf v (RBI.ofMassComInertiaC mass c C16.Ex.Ic * v)
+      = ⟨C16.Ex.Ic * a.w + v.w.cross (C16.Ex.Ic * v.w) + c.cross (mass * comAccel c v a),
+         mass * comAccel c v a⟩ :=
+  single_body_newton_euler mass c _ C16.Ex.Ic_symm v a
+
+/-- the symmetry of `Ic` cannot be dropped (`createFromMassComInertiaC` reads the lower triangle) -/
+example : ∃ (Ic : M3 Rat) (v a : SV Rat),
+    RBI.ofMassComInertiaC 1 V3.zero Ic * a + crossf v (RBI.ofMassComInertiaC 1 V3.zero Ic * v)
+      ≠ ⟨Ic * a.w + v.w.cross (Ic * v.w) + (V3.zero : V3 Rat).cross ((1 : Rat) * comAccel V3.zero v a),
+         (1 : Rat) * comAccel V3.zero v a⟩ :=
+  ⟨⟨1, 1, 0, 0, 1, 0, 0, 0, 1⟩, SV.zero, ⟨⟨0, 1, 0⟩, V3.zero⟩, by decide +kernel⟩
+
+end Algebra
+
+section Forward
+variable {α : Type} [Field α]
+
+/-- 1. After the forward loop(s) of `inverseDynamics` the workspace `W` handed to the backward pass
+    satisfies (`FwdClosed`, `ForceClosed`), for every body `1 ≤ i < nBodies`:
+    * row `i` of `X_lambda, v_J, c_J, S, multdof3_S` (and the custom `S`) is what `jcalc` alone
+      computes for joint `i` at `(st, qd)` from the entry workspace `w`; `X_lambda[i]` is the value
+      `jcalcX` (a function of the model and the state only, for the joint types `jcalc` handles);
+    * `v_0 = 0`, `a_0 = −gravity`, and with the **final** values of the parent
+        `v_i = X_λ_i.apply v_{λ i} + v_J_i`,  `c_i = c_J_i + v_i ×ₘ v_J_i`,
+        `a_i = X_λ_i.apply a_{λ i} + c_i + S_i q̈_i`  (joints of arity `.other`: `a_i` untouched);
+    * `f_i = I_i a_i + v_i ×* I_i v_i` (0 for virtual bodies), minus `X_base_i.applyAdjoint (fext i)`
+      with `X_base_i = X_λ_i * X_base_{λ i}` when external forces are given. -/
+theorem rnea_forward_closed (m : ModelS α) (hc : CustomInj m)
+    (htree : ∀ i, 1 ≤ i → i < m.nBodies → m.lam i < i)
+    (w : WS α) (st : QS α) (qd qdd tau : VecN α) (fext : Option (Nat → SV α)) :
+    inverseDynamics m w st qd qdd tau fext
+      = rneaBackward m (idForward m w st qd qdd fext) tau ∧
+    FwdClosed m st qd qdd w (idForward m w st qd qdd fext) ∧
+    ForceClosed m fext w (idForward m w st qd qdd fext) ∧
+    (∀ i, 1 ≤ i → i < m.nBodies →
+      (idForward m w st qd qdd fext).X_lambda i = jcalcX m i st (w.X_lambda i)) ∧
+    (∀ i, 1 ≤ i → i < m.nBodies → m.arity i = .other →
+      (idForward m w st qd qdd fext).a i = w.a i) := by
+  obtain ⟨h1, h2, h3⟩ := idForward_closed m hc htree w st qd qdd fext
+  refine ⟨inverseDynamics_eq m w st qd qdd tau fext, h1, h2, fun i i1 i2 => ?_, h3⟩
+  rw [h1.jX i i1 i2, jcalc_X_lambda, upd_same]
+
+example := rnea_forward_closed Ex.M Ex.M_customInj Ex.M_tree Ex.w1 Ex.st Ex.qd Ex.qdd Ex.qd
+  (some Ex.fe)
+
+/-- 1'. (independence of the entry workspace) Two entry workspaces that both hold the
+    construction-time entries (`WSJ`) give the same kinematic quantities and forces on all bodies. -/
+theorem rnea_forward_indep (m : ModelS α) (hc : CustomInj m)
+    (htree : ∀ i, 1 ≤ i → i < m.nBodies → m.lam i < i)
+    (w w' : WS α) (hW : WSJ m w) (hW' : WSJ m w') (st : QS α) (qd qdd : VecN α)
+    (fext : Option (Nat → SV α)) (hb : fext.isSome → w.X_base 0 = w'.X_base 0) :
+    ∀ i, 1 ≤ i → i < m.nBodies →
+      (idForward m w st qd qdd fext).X_lambda i = (idForward m w' st qd qdd fext).X_lambda i ∧
+      (idForward m w st qd qdd fext).Scols m i = (idForward m w' st qd qdd fext).Scols m i ∧
+      (idForward m w st qd qdd fext).f i = (idForward m w' st qd qdd fext).f i ∧
+      (idForward m w st qd qdd fext).v i = (idForward m w' st qd qdd fext).v i ∧
+      (idForward m w st qd qdd fext).a i = (idForward m w' st qd qdd fext).a i := by
+  obtain ⟨h1, h2, _⟩ := idForward_closed m hc htree w st qd qdd fext
+  obtain ⟨h1', h2', _⟩ := idForward_closed m hc htree w' st qd qdd fext
+  exact fwd_unique m htree (fun i i1 i2 => (hW i i1 i2).1.arity_ne_other) st qd qdd fext w w' _ _
+    h1 h1' h2 h2' (JEq_of_WSJ m st qd w w' hW hW') hb
+
+example := rnea_forward_indep Ex.M Ex.M_customInj Ex.M_tree Ex.w0 Ex.w1 Ex.w0_WSJ Ex.w1_WSJ Ex.st
+  Ex.qd Ex.qdd (some Ex.fe) (fun _ => rfl)
+
+/-- 1''. For the fixed-axis joints (`RevoluteX/Y/Z`, `Revolute`, `Prismatic`) the forward pass
+    leaves `S_i` = the axis, `v_J = S_i q̇_i`, `c_J = 0`, whatever else the entry workspace held. -/
+theorem rnea_forward_fixed_axis (m : ModelS α) (hc : CustomInj m)
+    (htree : ∀ i, 1 ≤ i → i < m.nBodies → m.lam i < i)
+    (w : WS α) (st : QS α) (qd qdd : VecN α) (fext : Option (Nat → SV α))
+    (i : Nat) (h1 : 1 ≤ i) (h2 : i < m.nBodies)
+    (hjt : (m.joint i).jt = .revoluteX ∨ (m.joint i).jt = .revoluteY ∨ (m.joint i).jt = .revoluteZ ∨
+      (m.joint i).jt = .revolute ∨ (m.joint i).jt = .prismatic)
+    (hW : WSJat m w i) :
+    (idForward m w st qd qdd fext).S i = fixedAxis m i ∧
+    (idForward m w st qd qdd fext).v_J i = qd (m.joint i).qIndex * fixedAxis m i ∧
+    (idForward m w st qd qdd fext).c_J i = SV.zero := by
+  obtain ⟨h, _, _⟩ := idForward_closed m hc htree w st qd qdd fext
+  rw [h.jS i h1 h2, h.jvJ i h1 h2, h.jcJ i h1 h2]
+  exact jcalc_WSJ_fixed_axis m w i st qd hjt hW
+
+example := rnea_forward_fixed_axis Ex.M Ex.M_customInj Ex.M_tree Ex.w1 Ex.st Ex.qd Ex.qdd none 5
+  (by decide) (by rw [Ex.M_n]; decide) (Or.inl Ex.jt5) (Ex.w1_WSJ 5 (by decide) (by rw [Ex.M_n]; decide)).2
+
+end Forward
+
+section Backward
+variable {α : Type} [Field α]
+
+/-- 2. The backward pass: with `F_i = W.f i` (the body forces left by the forward pass) and
+    `Ftot = rneaFtot m W`,
+    * the workspace returned is `W` with `f := Ftot`, and `Ftot_i = F_i + Σ_{c : λ c = i}
+      X_λ_cᵀ Ftot_c` (subtree sum; a leaf keeps `F_i`);
+    * an entry `x` of `tau` owned by joint `i` (`q_i ≤ x < q_i + #columns of S_i`) ends up as
+      `S_i(:, x − q_i) · Ftot_i` (`tau[q_i ..] = S_iᵀ Ftot_i`), provided the coordinate ranges of
+      the joints are pairwise disjoint;
+    * an entry owned by no joint keeps its incoming value. -/
+theorem rnea_backward_closed (m : ModelS α)
+    (htree : ∀ i, 1 ≤ i → i < m.nBodies → m.lam i < i) (W : WS α) (tau : VecN α)
+    (hdisj : ∀ i j x, 1 ≤ i → i < m.nBodies → 1 ≤ j → j < m.nBodies →
+      owns m W i x → owns m W j x → i = j) :
+    (rneaBackward m W tau).1 = { W with f := rneaFtot m W } ∧
+    (∀ i, 1 ≤ i → i < m.nBodies →
+      rneaFtot m W i = W.f i + lsum SV.zero
+        (fun c => (W.X_lambda c).applyTranspose (rneaFtot m W c))
+        (childrenOf m.lam (m.nBodies - 1) i)) ∧
+    (∀ i x, 1 ≤ i → i < m.nBodies → owns m W i x →
+      (rneaBackward m W tau).2 x
+        = ((W.Scols m i).getD (x - (m.joint i).qIndex) SV.zero).dot (rneaFtot m W i)) ∧
+    (∀ x, (∀ i, 1 ≤ i → i < m.nBodies → ¬ owns m W i x) → (rneaBackward m W tau).2 x = tau x) := by
+  rw [rneaBackward_eq m W tau htree]
+  refine ⟨rfl, fun i h1 _ => rneaFtot_rec m W htree i (by omega), fun i x h1 h2 ho => ?_,
+    fun x hno => ?_⟩
+  · exact tauLoop_owned m W _ tau hdisj i x h1 h2 ho
+  · exact tauLoop_free m W _ tau x hno
+
+/-- 2a. 1-DoF joints: `tau[q_i] = S_i · Ftot_i` -/
+theorem rnea_tau_one (m : ModelS α) (htree : ∀ i, 1 ≤ i → i < m.nBodies → m.lam i < i) (W : WS α)
+    (tau : VecN α)
+    (hdisj : ∀ i j x, 1 ≤ i → i < m.nBodies → 1 ≤ j → j < m.nBodies →
+      owns m W i x → owns m W j x → i = j)
+    (i : Nat) (h1 : 1 ≤ i) (h2 : i < m.nBodies) (ha : m.arity i = .one) :
+    (rneaBackward m W tau).2 (m.joint i).qIndex = (W.S i).dot (rneaFtot m W i) := by
+  have hS : W.Scols m i = [W.S i] := by unfold WS.Scols; rw [ha]
+  have ho : owns m W i (m.joint i).qIndex := by unfold owns; rw [hS]; simp
+  rw [(rnea_backward_closed m htree W tau hdisj).2.2.1 i _ h1 h2 ho, hS]
+  simp
+
+/-- 2b. 3-DoF joints: `tau[q_i .. q_i+2] = S_iᵀ Ftot_i` -/
+theorem rnea_tau_three (m : ModelS α) (htree : ∀ i, 1 ≤ i → i < m.nBodies → m.lam i < i)
+    (W : WS α) (tau : VecN α)
+    (hdisj : ∀ i j x, 1 ≤ i → i < m.nBodies → 1 ≤ j → j < m.nBodies →
+      owns m W i x → owns m W j x → i = j)
+    (i : Nat) (h1 : 1 ≤ i) (h2 : i < m.nBodies) (ha : m.arity i = .three) :
+    (⟨(rneaBackward m W tau).2 (m.joint i).qIndex, (rneaBackward m W tau).2 ((m.joint i).qIndex + 1),
+      (rneaBackward m W tau).2 ((m.joint i).qIndex + 2)⟩ : V3 α)
+      = (W.S3 i).tmulSV (rneaFtot m W i) := by
+  have hS : W.Scols m i = [(W.S3 i).c0, (W.S3 i).c1, (W.S3 i).c2] := by
+    unfold WS.Scols; rw [ha]; rfl
+  have ho : ∀ d, d < 3 → owns m W i ((m.joint i).qIndex + d) := by
+    intro d hd; unfold owns; rw [hS]; simp only [List.length_cons, List.length_nil]; omega
+  have h := (rnea_backward_closed m htree W tau hdisj).2.2.1 i
+  rw [show (m.joint i).qIndex = (m.joint i).qIndex + 0 from rfl,
+    h _ h1 h2 (ho 0 (by omega)), h _ h1 h2 (ho 1 (by omega)), h _ h1 h2 (ho 2 (by omega)), hS]
+  simp [M63.tmulSV]
+
+/-- 2c. Iteration `i` of the backward loop leaves the `tau` entries of the other joints alone. -/
+theorem tau_write_local (m : ModelS α) (W : WS α) (i : Nat) (f : SV α) (tau : VecN α) (x : Nat)
+    (h : ¬ owns m W i x) : W.tauWrite m i f tau x = tau x :=
+  tauWrite_not_owned W m f i tau x h
+
+/-- 2d. In a well-formed model (C14 invariant `ModelS.WF`: contiguous coordinates) whose joints
+    write as many `tau` entries as they have degrees of freedom, the ranges are pairwise disjoint
+    and every entry below `dofCount` is owned by exactly one joint, i.e. written exactly once by
+    the backward loop (which visits every body once). -/
+theorem tau_written_once (m : ModelS α) (hwf : m.WF) (W : WS α)
+    (hlen : ∀ i, 1 ≤ i → i < m.nBodies → (W.Scols m i).length = (m.joint i).dof) :
+    (∀ i j x, 1 ≤ i → i < m.nBodies → 1 ≤ j → j < m.nBodies →
+      owns m W i x → owns m W j x → i = j) ∧
+    (∀ x, x < m.dofCount → ∃ i, (1 ≤ i ∧ i < m.nBodies ∧ owns m W i x) ∧
+      ∀ j, 1 ≤ j ∧ j < m.nBodies ∧ owns m W j x → j = i) := by
+  have hd := owns_disjoint_of_WF m W hwf hlen
+  refine ⟨hd, fun x hx => ?_⟩
+  obtain ⟨i, h1, h2, ho⟩ := owns_cover_of_WF m W hwf hlen x hx
+  exact ⟨i, ⟨h1, h2, ho⟩, fun j hj => hd j i x hj.1 hj.2.1 h1 h2 hj.2.2 ho⟩
+
+/-- 2e. Consequently the output of `inverseDynamics` does not depend on the incoming `tau` on the
+    entries `< dofCount` (well-formed model, supported joint arities). -/
+theorem rnea_tau0_indep (m : ModelS α) (hwf : m.WF) (hc : CustomInj m)
+    (harity : ∀ i, 1 ≤ i → i < m.nBodies → m.arity i ≠ .other)
+    (w : WS α) (st : QS α) (qd qdd : VecN α) (fext : Option (Nat → SV α)) (t t' : VecN α)
+    (x : Nat) (hx : x < m.dofCount) :
+    (inverseDynamics m w st qd qdd t fext).2 x = (inverseDynamics m w st qd qdd t' fext).2 x := by
+  obtain ⟨h, _, _⟩ := idForward_closed m hc hwf.lam_lt w st qd qdd fext
+  have hlen := scols_length_closed m hwf st qd qdd w _ h harity
+  rw [inverseDynamics_eq, inverseDynamics_eq]
+  exact rneaBackward_tau_indep m hwf.lam_lt _ t t' (owns_disjoint_of_WF m _ hwf hlen) x
+    (owns_cover_of_WF m _ hwf hlen x hx)
+
+end Backward
+
+section BackwardEx
+open Rbdl.L01.Ex
+
+example := rnea_backward_closed M M_tree Wex qdd (owns_disjoint_of_WF M Wex M_wf Wex_len)
+example := rnea_tau_one M M_tree Wex qdd (owns_disjoint_of_WF M Wex M_wf Wex_len) 3 (by decide)
+  (by rw [M_n]; decide) (by decide +kernel)
+example := rnea_tau_three M M_tree Wex qdd (owns_disjoint_of_WF M Wex M_wf Wex_len) 2 (by decide)
+  (by rw [M_n]; decide) (by decide +kernel)
+example (f : SV Rat) (tau : VecN Rat) := tau_write_local M Wex 7 f tau 0
+  (fun h => absurd h.1 (by decide +kernel))
+example := tau_written_once M M_wf Wex Wex_len
+example := rnea_tau0_indep M M_wf M_customInj (fun i h1 h2 => (M_jointOK i h1 h2).arity_ne_other)
+  w1 st qd qdd (some fe) qd qdd 13 (by decide +kernel)
+/-- the subtree of body 3 consists of 3, 4, 5, 6 (children 4 and 5; 6 hangs on 5) -/
+example : childrenOf M.lam (M.nBodies - 1) 3 = [4, 5] ∧ childrenOf M.lam (M.nBodies - 1) 2 = [3, 7]
+    := by decide +kernel
+
+end BackwardEx
+
+section DAlembert
+variable {α : Type} [Field α]
+
+/-- 3. (d'Alembert's principle in body coordinates) The generalized force written to an entry `x`
+    of `tau` owned by joint `i` — i.e. component `j = x − q_i` of `τ_i` — is the sum over **all**
+    bodies `k` of
+      (partial velocity of body `k` with respect to that joint rate) · (net force `F_k` of body `k`),
+    where the partial velocity `downTo … i k (S_i(:,j))` is `ᵏX_i S_i(:,j)`, the column of `S_i`
+    carried down the tree by the `X_λ` on the path from `i` to `k` (`downTo_eq_pathX`), and zero
+    for the bodies outside the subtree of `i` (`downTo_outside`). -/
+theorem rnea_dalembert (m : ModelS α) (htree : ∀ i, 1 ≤ i → i < m.nBodies → m.lam i < i)
+    (W : WS α) (tau : VecN α)
+    (hdisj : ∀ i j x, 1 ≤ i → i < m.nBodies → 1 ≤ j → j < m.nBodies →
+      owns m W i x → owns m W j x → i = j)
+    (fuel : Nat) (hf : m.nBodies - 1 ≤ fuel)
+    (i x : Nat) (h1 : 1 ≤ i) (h2 : i < m.nBodies) (ho : owns m W i x) :
+    (rneaBackward m W tau).2 x =
+      lsum 0 (fun k =>
+          (downTo W.X_lambda m.lam i fuel k
+            ((W.Scols m i).getD (x - (m.joint i).qIndex) SV.zero)).dot (W.f k))
+        (List.range' 1 (m.nBodies - 1)) := by
+  rw [rneaBackward_eq m W tau htree]
+  show tauLoop m W (rneaFtot m W) tau x = _
+  rw [tauLoop_owned m W _ tau hdisj i x h1 h2 ho]
+  exact dot_rneaFtot m W htree fuel hf i h1 h2 _
+
+/-- 3'. For `inverseDynamics` itself: `F_k = I_k a_k + v_k ×* I_k v_k − X_base_k.applyAdjoint(fext k)`
+    with the velocities and accelerations of the forward recursion (`rnea_forward_closed`). -/
+theorem inverse_dynamics_dalembert (m : ModelS α) (hwf : m.WF) (hc : CustomInj m)
+    (harity : ∀ i, 1 ≤ i → i < m.nBodies → m.arity i ≠ .other)
+    (w : WS α) (st : QS α) (qd qdd tau : VecN α) (fext : Option (Nat → SV α))
+    (fuel : Nat) (hf : m.nBodies - 1 ≤ fuel)
+    (i x : Nat) (h1 : 1 ≤ i) (h2 : i < m.nBodies)
+    (ho : owns m (idForward m w st qd qdd fext) i x) :
+    (inverseDynamics m w st qd qdd tau fext).2 x =
+      lsum 0 (fun k =>
+          (downTo (idForward m w st qd qdd fext).X_lambda m.lam i fuel k
+            (((idForward m w st qd qdd fext).Scols m i).getD (x - (m.joint i).qIndex) SV.zero)).dot
+            (netForce m fext (idForward m w st qd qdd fext) k))
+        (List.range' 1 (m.nBodies - 1)) := by
+  obtain ⟨h, hfc, _⟩ := idForward_closed m hc hwf.lam_lt w st qd qdd fext
+  have hlen := scols_length_closed m hwf st qd qdd w _ h harity
+  rw [inverseDynamics_eq, rnea_dalembert m hwf.lam_lt _ tau (owns_disjoint_of_WF m _ hwf hlen) fuel hf
+    i x h1 h2 ho]
+  refine lsum_congr _ _ _ (fun k hk => ?_)
+  rw [List.mem_range'_1] at hk
+  rw [hfc.f k hk.1 (by omega)]
+
+
+/-- 3 (as in the task). With all `X_λ` below body `i` rotations + translations, the entry `x` of
+    `tau` owned by joint `i` is the sum **over the subtree of `i`** of
+    `(ᵏX_i.apply (S_i(:, x − q_i))) · F_k`, `ᵏX_i` = the product of the `X_λ` along the path from
+    `i` to `k`. -/
+theorem rnea_dalembert_subtree (m : ModelS α) (htree : ∀ i, 1 ≤ i → i < m.nBodies → m.lam i < i)
+    (W : WS α) (tau : VecN α)
+    (hdisj : ∀ i j x, 1 ≤ i → i < m.nBodies → 1 ≤ j → j < m.nBodies →
+      owns m W i x → owns m W j x → i = j)
+    (fuel : Nat) (hf : m.nBodies - 1 ≤ fuel)
+    (i x : Nat) (h1 : 1 ≤ i) (h2 : i < m.nBodies) (ho : owns m W i x)
+    (hrot : ∀ c, i < c → c < m.nBodies → (W.X_lambda c).E.IsRot) :
+    (rneaBackward m W tau).2 x =
+      lsum 0 (fun k =>
+          ((pathX W.X_lambda m.lam i fuel k).apply
+            ((W.Scols m i).getD (x - (m.joint i).qIndex) SV.zero)).dot (W.f k))
+        ((List.range' 1 (m.nBodies - 1)).filter (fun k => decide (inSub m.lam i fuel k))) := by
+  rw [rnea_dalembert m htree W tau hdisj fuel hf i x h1 h2 ho]
+  rw [← lsum_filter L12.ring_addLaws _ (fun k => decide (inSub m.lam i fuel k)) _ (fun c _ hc => ?_)]
+  · refine lsum_congr _ _ _ (fun k hk => ?_)
+    rw [List.mem_filter, decide_eq_true_eq, List.mem_range'_1] at hk
+    rw [downTo_eq_pathX W.X_lambda m.lam i (m.nBodies - 1)
+      (fun c c1 c2 => htree c c1 (by omega)) (fun c c1 c2 => hrot c c1 (by omega)) fuel k
+      (by omega) hk.2]
+  · rw [decide_eq_false_iff_not] at hc
+    rw [downTo_outside W.X_lambda m.lam i fuel c hc, sv_zero_dot]
+
+end DAlembert
+
+section DAlembertEx
+open Rbdl.L01.Ex
+
+/-- 3''. The partial velocity `downTo` is the path product `ᵏX_i` applied to the joint axis inside
+    the subtree of `i` (all `X_λ` strictly below `i` rotations + translations), and zero outside. -/
+theorem partial_velocity_eq {α : Type} [Field α] (X : Nat → XT α) (lam : Nat → Nat) (i N : Nat)
+    (htree : ∀ c, 1 ≤ c → c ≤ N → lam c < c)
+    (hX : ∀ c, i < c → c ≤ N → (X c).E.IsRot) (fuel k : Nat) (hk : k ≤ N) (s : SV α) :
+    (inSub lam i fuel k → downTo X lam i fuel k s = (pathX X lam i fuel k).apply s) ∧
+    (¬ inSub lam i fuel k → downTo X lam i fuel k s = SV.zero) :=
+  ⟨fun h => downTo_eq_pathX X lam i N htree hX fuel k hk h s,
+   fun h => downTo_outside X lam i fuel k h s⟩
+
+example (s : SV Rat) := partial_velocity_eq Wex.X_lambda M.lam 3 7
+  (fun c h1 h2 => M_tree c h1 (by rw [M_n]; omega))
+  (fun c h1 h2 => Wex_rot c h1 (by rw [M_n]; omega)) 7 6 (by decide) s
+/-- body 6 is in the subtree of body 3 (6 → 5 → 3), body 7 is not (7 → 2 → 1 → 0) -/
+example : inSub M.lam 3 7 6 ∧ ¬ inSub M.lam 3 7 7 := by
+  have h6 : M.lam 6 = 5 := by decide +kernel
+  have h5 : M.lam 5 = 3 := by decide +kernel
+  have h7 : M.lam 7 = 2 := by decide +kernel
+  have h2 : M.lam 2 = 1 := by decide +kernel
+  have h1 : M.lam 1 = 0 := by decide +kernel
+  have h0 : M.lam 0 = 0 := by decide +kernel
+  simp [inSub, h6, h5, h7, h2, h1, h0]
+
+example := rnea_dalembert M M_tree Wex qdd (owns_disjoint_of_WF M Wex M_wf Wex_len) 7 (by rw [M_n]; decide)
+  7 13 (by decide) (by rw [M_n]; decide) owns_7_13
+example := inverse_dynamics_dalembert M M_wf M_customInj
+  (fun i h1 h2 => (M_jointOK i h1 h2).arity_ne_other) w1 st qd qdd qdd (some fe) 7
+  (by rw [M_n]; decide) 7 13 (by decide) (by rw [M_n]; decide) owns_7_13
+
+/-- entry 6 of `tau` is the coordinate of the revolute joint of body 3, whose subtree is 3, 4, 5, 6 -/
+example := rnea_dalembert_subtree M M_tree Wex qdd (owns_disjoint_of_WF M Wex M_wf Wex_len) 7
+  (by rw [M_n]; decide) 3 6 (by decide) (by rw [M_n]; decide) owns_3_6
+  (fun c h1 h2 => Wex_rot c h1 h2)
+example : (List.range' 1 (M.nBodies - 1)).filter (fun k => decide (inSub M.lam 3 7 k)) = [3, 4, 5, 6]
+    := by decide +kernel
+
+end DAlembertEx
+
+section NE
+variable {α : Type} [Field α] [DecidableEq α]
+
+/-- 5. `NonlinearEffects` computes `InverseDynamics` with `q̈ = 0`: on every entry `k < dofCount`
+    of `tau`, for arbitrary unrelated entry workspaces `w`, `w'` that hold the construction-time
+    entries (`WSJ`), arbitrary incoming `tau`s, with or without external forces.
+    Hypotheses: well-formed model (C14), distinct custom joints use distinct workspace slots,
+    `mJointUpdateOrder` (without its leading 0) is a permutation of `1..n-1` (validated at run
+    time), and — only when external forces are given — `X_base[0]` is the identity in both
+    workspaces (it is set at construction and never written). -/
+theorem nonlinear_effects_eq_rnea0 (m : ModelS α) (hwf : m.WF) (hc : CustomInj m)
+    (hperm : (m.updateOrder.drop 1).Perm (List.range' 1 (m.nBodies - 1)))
+    (w w' : WS α) (hW : WSJ m w) (hW' : WSJ m w') (st : QS α) (qd t0 t0' : VecN α)
+    (fext : Option (Nat → SV α))
+    (hxb : fext.isSome → w.X_base 0 = XT.id ∧ w'.X_base 0 = XT.id)
+    (k : Nat) (hk : k < m.dofCount) :
+    (nonlinearEffects m w st qd t0 fext).2 k
+      = (inverseDynamics m w' st qd zeroVec t0' fext).2 k :=
+  ne_eq_id0 m hwf hc hperm w w' st qd t0 t0' fext (fun i h1 h2 => (hW i h1 h2).1)
+    (JEq_of_WSJ m st qd w w' hW hW') hxb k hk
+
+end NE
+
+section Ex5
+open Rbdl.L01.Ex
+
+example (k : Nat) (hk : k < M.dofCount) :
+    (nonlinearEffects M w0 st qd qdd (some fe)).2 k
+      = (inverseDynamics M w1 st qd zeroVec qd (some fe)).2 k :=
+  nonlinear_effects_eq_rnea0 M M_wf M_customInj M_perm w0 w1 w0_WSJ w1_WSJ st qd qdd qd (some fe)
+    (fun _ => ⟨w0_Xb0, w1_Xb0⟩) k hk
+
+example (k : Nat) (hk : k < M.dofCount) :
+    (nonlinearEffects M w1 st qd qdd none).2 k = (inverseDynamics M w0 st qd zeroVec qd none).2 k :=
+  nonlinear_effects_eq_rnea0 M M_wf M_customInj M_perm w1 w0 w1_WSJ w0_WSJ st qd qdd qd none
+    (fun h => nomatch h) k hk
+
+/-- the hypothesis on `X_base[0]` cannot be dropped: with external forces and a workspace whose
+    `X_base[0]` is not the identity the two routines disagree (they treat base-attached bodies
+    differently: `X_base[i] = X_lambda[i]` vs `X_lambda[i] * X_base[0]`) -/
+example : WSJ M wbad ∧ (nonlinearEffects M w0 st qd qdd (some fe)).2 0
+    ≠ (inverseDynamics M wbad st qd zeroVec qd (some fe)).2 0 := ⟨wbad_WSJ, by decide +kernel⟩
+
+end Ex5
 end Rbdl.C01
